@@ -140,8 +140,8 @@ func (m *MethodEvaluator) parseKeyIdentifierToKeyWordT(
 		return nil, err
 	}
 
-	// test(a: 1)
-	if !t.IsTargetIdentifier(endIdentifier) && !t.IsCommaIdentifier() {
+	// test(a: 1); end of input ends a shorthand keyword like a newline does
+	if t != nil && !t.IsTargetIdentifier(endIdentifier) && !t.IsCommaIdentifier() {
 		err = m.outerEval.Eval(m.parser, m.ctx, t)
 		if err != nil {
 			return nil, err
